@@ -64,8 +64,12 @@ class RQKernel(Kernel):
 
     def forward(self, x1, x2, diag=False, **params):
         def postprocess_rq(dist_mat):
+            # alpha is `batch_shape x 1`: give it one singleton dimension per non-batch dimension of dist_mat.
+            # (Counting dist_mat's dimensions instead mis-aligns alpha when the inputs have more batch dimensions
+            # than the kernel.)
             alpha = self.alpha
-            for _ in range(1, len(dist_mat.shape) - len(self.batch_shape)):
+            num_non_batch_dims = (1 if diag else 2) + (1 if params.get("last_dim_is_batch", False) else 0)
+            for _ in range(1, num_non_batch_dims):
                 alpha = alpha.unsqueeze(-1)
             return (1 + dist_mat.div(2 * alpha)).pow(-alpha)
 
